@@ -144,6 +144,16 @@ type IntPrinter struct {
 	bad   bool
 }
 
+func (p *IntPrinter) sgT(t *Term, a string) string {
+	if nonneg(t) {
+		return a
+	}
+	if t.isConst() {
+		return fmt.Sprintf("%d", sx(t.val, t.w))
+	}
+	return p.sg(a, t.w)
+}
+
 func (p *IntPrinter) sg(a string, w int) string {
 	return fmt.Sprintf("(ite (>= %s %s) (- %s %s) %s)", a, pow2(w-1), a, pow2(w), a)
 }
@@ -175,17 +185,21 @@ func (p *IntPrinter) ref(t *Term) string {
 		}
 		w := t.w
 		var e string
-		aw := 0
-		if len(t.args) > 0 {
-			aw = t.args[0].w
-		}
 		switch t.op {
 		case "bvadd":
-			e = fmt.Sprintf("(mod (+ %s %s) %s)", as[0], as[1], pow2(w))
+			if ua, ub := umax(t.args[0]), umax(t.args[1]); ua+ub >= ua && ua+ub <= mask(w) {
+				e = fmt.Sprintf("(+ %s %s)", as[0], as[1])
+			} else {
+				e = fmt.Sprintf("(mod (+ %s %s) %s)", as[0], as[1], pow2(w))
+			}
 		case "bvsub":
 			e = fmt.Sprintf("(mod (- %s %s) %s)", as[0], as[1], pow2(w))
 		case "bvmul":
-			e = fmt.Sprintf("(mod (* %s %s) %s)", as[0], as[1], pow2(w))
+			if hi, lo := mul64(umax(t.args[0]), umax(t.args[1])); hi == 0 && lo <= mask(w) {
+				e = fmt.Sprintf("(* %s %s)", as[0], as[1])
+			} else {
+				e = fmt.Sprintf("(mod (* %s %s) %s)", as[0], as[1], pow2(w))
+			}
 		case "bvudiv":
 			if t.args[1].isConst() && t.args[1].val != 0 {
 				e = fmt.Sprintf("(div %s %s)", as[0], as[1])
@@ -199,7 +213,7 @@ func (p *IntPrinter) ref(t *Term) string {
 				e = fmt.Sprintf("(ite (= %s 0) %s (mod %s %s))", as[1], as[0], as[0], as[1])
 			}
 		case "bvsdiv", "bvsrem":
-			a, b := p.sg(as[0], w), p.sg(as[1], w)
+			a, b := p.sgT(t.args[0], as[0]), p.sgT(t.args[1], as[1])
 			q := fmt.Sprintf("(ite (= (>= %s 0) (>= %s 0)) (div (abs %s) (abs %s)) (- (div (abs %s) (abs %s))))", a, b, a, b, a, b)
 			if t.op == "bvsdiv" {
 				// SMT-LIB bvsdiv by zero: -1 if a>=0 else 1
@@ -237,7 +251,7 @@ func (p *IntPrinter) ref(t *Term) string {
 		case "zext":
 			e = as[0]
 		case "sext":
-			e = fmt.Sprintf("(mod %s %s)", p.sg(as[0], aw), pow2(w))
+			e = fmt.Sprintf("(mod %s %s)", p.sgT(t.args[0], as[0]), pow2(w))
 		case "extract":
 			if t.p2 != 0 {
 				p.bad = true
@@ -251,9 +265,9 @@ func (p *IntPrinter) ref(t *Term) string {
 		case "bvule":
 			e = fmt.Sprintf("(<= %s %s)", as[0], as[1])
 		case "bvslt":
-			e = fmt.Sprintf("(< %s %s)", p.sg(as[0], aw), p.sg(as[1], aw))
+			e = fmt.Sprintf("(< %s %s)", p.sgT(t.args[0], as[0]), p.sgT(t.args[1], as[1]))
 		case "bvsle":
-			e = fmt.Sprintf("(<= %s %s)", p.sg(as[0], aw), p.sg(as[1], aw))
+			e = fmt.Sprintf("(<= %s %s)", p.sgT(t.args[0], as[0]), p.sgT(t.args[1], as[1]))
 		case "not", "and", "ite":
 			e = "(" + t.op + " " + strings.Join(as, " ") + ")"
 		default:
